@@ -367,7 +367,12 @@ def rAnon : Nat := nSlots + 2 * nObjs + nCalls + nSents + 3
     /c06/rc<L> (j = 2), which inherits the other two; `rLay L j` is the blueprint object of program j -/
 def nLayouts : Nat := 4
 def rLay (L j : Nat) : Nat := nSlots + 2 * nObjs + nCalls + nSents + 4 + 3 * L + j
-def nFixed : Nat := nSlots + 2 * nObjs + nCalls + nSents + 4 + 3 * nLayouts
+/-- `func_ref` of the program of /c06/base (w = 1) and of /c06/uobj (w = 0) is a cell of its own (`cFBase`, `cFProg`):
+    its holders are the function pointers compiled into that program ((: ... :), function (...) { ... }) that are
+    alive.  The cell has one permanent holder, the root `rFunc w`, so that it exists while func_ref = 0: the counter of
+    the cell is func_ref + 1. -/
+def rFunc (w : Nat) : Nat := nSlots + 2 * nObjs + nCalls + nSents + 4 + 3 * nLayouts + w
+def nFixed : Nat := nSlots + 2 * nObjs + nCalls + nSents + 4 + 3 * nLayouts + 2
 
 /-- variables of the first / second inherited program of layout L (4 variables altogether, the rest are rc's own) -/
 def layNa : Nat → Nat
@@ -381,19 +386,29 @@ def layNb : Nat → Nat
 /-- heap index of the program of /c06/base and of /c06/uobj -/
 def cBase : Nat := 0
 def cProg : Nat := 1
+def cFProg : Nat := 2
+def cFBase : Nat := 3
 
 /-- the state after the harness has loaded /c06/uobj: the program of /c06/base is held by its blueprint object and
     by the inherit table of the program of /c06/uobj, which is held by its own blueprint object -/
 def St.init : St :=
   { heap := [{ kind := .prog, ref := 2, live := true, items := [], vis := false, tag := 0 },
-             { kind := .prog, ref := 1, live := true, items := [.ptr cBase], vis := false, tag := nVars }],
-    roots := (List.replicate (nFixed - 3 - 3 * nLayouts) (.num 0)) ++ [.ptr cProg, .ptr cBase, .num 0]
-               ++ List.replicate (3 * nLayouts) (.num 0) }
+             { kind := .prog, ref := 1, live := true, items := [.ptr cBase], vis := false, tag := nVars },
+             { kind := .prog, ref := 1, live := true, items := [], vis := false, tag := 0 },
+             { kind := .prog, ref := 1, live := true, items := [], vis := false, tag := 0 }],
+    roots := (List.replicate (nFixed - 5 - 3 * nLayouts) (.num 0)) ++ [.ptr cProg, .ptr cBase, .num 0]
+               ++ List.replicate (3 * nLayouts) (.num 0) ++ [.ptr cFProg, .ptr cFBase] }
+
+/-- index of the first cell a case allocates (the cells of `St.init` come before it) -/
+def c0 : Nat := St.init.heap.length
 
 inductive Op where
   | newarr (s n : Nat) | newmap (s : Nat) | newcls (s : Nat) | newbuf (s n : Nat)
   | newstr (s : Nat) (w : String) | newmstr (s : Nat) (w : String)
   | newfun (s o t : Nat)
+  | newffun (s o w : Nat)    -- object o makes a function pointer compiled into a program: w = 0 / 2 (: ... :) / function () {} in its
+                             -- own program, w = 1 / 3 the same inside a function it inherits from /c06/base (func_ref of THAT program),
+                             -- w = 4 / 5 in its own program and using a global variable (flag FP_NOT_BINDABLE in hdr.type)
   | fill (d n t : Nat)
   | assign (d s : Nat) | free (s : Nat)
   | aset (s i t : Nat) | aget (d s i : Nat)
@@ -754,6 +769,16 @@ def compile (s : St) (op : Op) : Option (List Mi) :=
         some ([.alloc .arr 1 false "" 0, .dup (.root t), .put (.item fresh 0),
                .alloc .fn 2 true "" 0, .swap, .put (.item (fresh + 1) 0),
                .dup (.root (rHandle o)), .put (.item (fresh + 1) 1)] ++ intoSlot d)
+      else none
+    | none => none
+  | .newffun d o w =>
+    match uobjCell s o with
+    | some (_, _) =>
+      if d < nSlots && w < 6 then
+        -- make_functional_funp: owner counted, `current_prog->func_ref++` - the program whose code is running: the
+        -- inherited one when the function that contains the literal is inherited; dealloc_funp releases exactly these
+        some ([.alloc .fn 3 true "" 0, .dup (.root (rHandle o)), .put (.item fresh 1),
+               .dup (.root (rFunc (if w == 1 || w == 3 then 1 else 0))), .put (.item fresh 2)] ++ intoSlot d)
       else none
     | none => none
   | .fill d n t =>
